@@ -8,11 +8,14 @@ import (
 	"bufio"
 	"fmt"
 	"io"
+	"os"
 	"os/exec"
 	"strconv"
 	"strings"
 	"time"
 )
+
+var defAssert = os.Getenv("SYMGO_DEFMODE") == "assert"
 
 type SatResult int
 
@@ -140,7 +143,11 @@ func (s *Solver) define(t *Term) {
 			continue
 		}
 		if it.done {
-			fmt.Fprintf(&s.buf, "(define-fun t%d () %s %s)\n", x.id, sortStr(x.w), x.body())
+			if defAssert {
+				fmt.Fprintf(&s.buf, "(declare-const t%d %s)\n(assert (= t%d %s))\n", x.id, sortStr(x.w), x.id, x.body())
+			} else {
+				fmt.Fprintf(&s.buf, "(define-fun t%d () %s %s)\n", x.id, sortStr(x.w), x.body())
+			}
 			x.gen = s.gen
 			s.defs++
 			continue
